@@ -202,14 +202,15 @@ class SinglePhaseReservoir(IdealReservoir):
         for i in range(len(time) - 1):
             mesh_ratio = (time[i + 1] - time[i]) / dx_squared
             b = np.minimum(pseudopressure[i].copy(), m_i)
-            # Enforce the boundary condition at x=0
-            b[0] = m_f[i] + self.alpha_scaled(m_f[i]) * m_f[i] * mesh_ratio
+            b[0] = m_f[i]
             try:
                 alpha_scaled = self.alpha_scaled(b)
             except ValueError as e:
                 msg = f"scaling failed where m_initial={m_i}  m_fracface={m_f}"
                 raise ValueError(msg) from e
             kt_h2 = mesh_ratio * alpha_scaled
+            # Enforce the boundary condition at x=0 (same diffusivity as the matrix row)
+            b[0] = m_f[i] + kt_h2[0] * m_f[i]
             a_matrix = _build_matrix(kt_h2)
             pseudopressure[i + 1], _ = sparse.linalg.bicgstab(a_matrix, b, atol=_ATOL)
         self.pseudopressure = pseudopressure
